@@ -113,6 +113,10 @@ var matchExpr = map[string]string{
 	"never":       "level() > CRITICAL",
 	"tagA":        `"host" == 'a'`,
 	"tagAwarn":    `"host" == 'a' AND level() >= WARNING`,
+	"nameM":       `name() == 'm'`,
+	"taskT":       `taskName() == 'tk'`,
+	"durGt1":      `alertDuration() > 1s`,
+	"nameMchanged": `name() == 'm' AND changed()`,
 }
 
 type hstate struct {
@@ -316,8 +320,22 @@ func (tr *Tr) CollectTag(topic, id string, lvl int, k int, tag string) {
 	ev := alert.Event{Topic: tr.real(topic), State: alert.EventState{ID: id, Level: alert.Level(lvl),
 		Time: rt.DefaultTime.T(k), Message: fmt.Sprintf("m%d", k)}}
 	f := rt.M{"topic": topic, "id": id, "lvl": lvl}
-	if tag != "none" {
+	// tag is the event's attribute class (Topics.tla): host tag, name, task name, duration
+	ev.Data.Name, ev.Data.TaskName = "m", "tk"
+	switch tag {
+	case "a", "b":
 		ev.Data.Tags = map[string]string{"host": tag}
+	case "n":
+		ev.Data.Name = "other"
+	case "u":
+		ev.Data.TaskName = "othertask"
+	case "d":
+		ev.State.Duration = 5 * time.Second
+	case "ad":
+		ev.Data.Tags = map[string]string{"host": "a"}
+		ev.State.Duration = 5 * time.Second
+	}
+	if tag != "none" {
 		f["tag"] = tag
 	}
 	if err := tr.svc.S.Collect(ev); err != nil {
